@@ -97,6 +97,9 @@ func c13Judge(c *Ctx, cs *Case) {
 	}
 	R := c.N(8, 40)
 	RP := c.N(4, 15)
+	if cs.X != nil && cs.X["process_reps"] != "" {
+		fmt.Sscan(cs.X["process_reps"], &RP)
+	}
 	var base *Obs
 	if cs.Gen == "general-programs" {
 		// programs the model cannot finish (unbounded loops) say nothing about determinism
@@ -397,6 +400,34 @@ func c13Run(c *Ctx) {
 				cs.Mode = "cli"
 			}
 			c13Judge(c, cs)
+		}
+	}
+	// 2b''. a syntax error and a lexical error a given number of tokens apart, in either order: which diagnostic comes first is
+	// fixed, whatever the distance (distances around every power of two up to 1024: the sizes buffers and batches come in)
+	{
+		var dists []int
+		for b := 1; b <= 1024; b *= 2 {
+			for d := b - 4; d <= b+14; d += 2 {
+				if d >= 0 {
+					dists = append(dists, d)
+				}
+			}
+		}
+		seen := map[int]bool{}
+		for _, d := range dists {
+			if seen[d] {
+				continue
+			}
+			seen[d] = true
+			terms := strings.Repeat(" + x", d/2)
+			for oi, src := range []string{
+				Var("x", "5") + "\n" + K["var"] + " y = 2\n" + K["print"] + " x" + terms + " @ 2;\n" + Print("y") + "\n",
+				Var("x", "5") + "\n" + K["print"] + " # x" + terms + ";\n" + K["var"] + " y = 2\n" + Print("y") + "\n",
+			} {
+				if c.Mine() {
+					c13Judge(c, &Case{Gen: "several-static-errors", Mode: "cli", Src: src, X: map[string]string{"nontrivial": "1", "distance": fmt.Sprint(d), "order": fmt.Sprint(oi), "process_reps": "10"}})
+				}
+			}
 		}
 	}
 	// 2c. interactive sessions: a self-contained line repeated with other lines (declarations, assignments
